@@ -171,7 +171,8 @@ Proof.
   pose proof (parse_to_double_nf txt) as P. unfold classify_number.
   destruct dbl; [exact P|]. destruct neg.
   - destruct txt as [|m ds]; [split; discriminate|]. destruct ds as [|d ds]; [split; discriminate|].
-    cbv zeta. destruct (i64_min <=? - Z.of_N (N_of_digits (d :: ds)))%Z; [split; discriminate|exact P].
+    cbv zeta. destruct (- Z.of_N (N_of_digits (d :: ds)) =? 0)%Z; [split; discriminate|].
+    destruct (i64_min <=? - Z.of_N (N_of_digits (d :: ds)))%Z; [split; discriminate|exact P].
   - destruct txt as [|d ds]; [split; discriminate|].
     cbv zeta. destruct (N_of_digits (d :: ds) <=? u64_max); [split; discriminate|exact P].
 Qed.
